@@ -1858,8 +1858,8 @@ def inlined_facts(facts, vocab=None):
         if any(b.get("term", {}).get("inlined") for b in raws[path]["blocks"]):
             try:
                 raws[path] = thread_variants(raws[path])
-            except Exception:
-                pass
+            except Exception as e:       # the body stays unthreaded (the rules then read merged paths: fail closed, not open)
+                info.setdefault("thread_errors", []).append("%s: %r" % (mir.strip_generics(path), e))
     # drop helpers that are no longer called directly or used as values
     cur = mir.Program(dict(facts, bodies=list(raws.values())))
     for hp in list(helpers):
